@@ -234,6 +234,15 @@ var f64Class = []uint64{0, 1 << 63, 1, 0x000fffffffffffff, 0x0010000000000000, 0
 	math.Float64bits(1), math.Float64bits(-1), math.Float64bits(0.1), math.Float64bits(1e21), math.Float64bits(1e20), math.Float64bits(1e-5), math.Float64bits(1e-6), math.Float64bits(1e-7),
 	math.Float64bits(9007199254740993), math.Float64bits(1e300), math.Float64bits(1e-300), math.Float64bits(123456789.125), math.Float64bits(0.3), math.Float64bits(2.5e-8),
 	math.Float64bits(1.7976931348623157e308), math.Float64bits(4.9e-324), math.Float64bits(100), math.Float64bits(1e15), math.Float64bits(123456789012345680)}
+
+// doubles at integer-type boundaries (where an integer fast path or cast would change the value)
+var f64IntBounds = []uint64{math.Float64bits(9223372036854775808), math.Float64bits(-9223372036854775808), math.Float64bits(9223372036854774784), math.Float64bits(-9223372036854777856),
+	math.Float64bits(18446744073709551616), math.Float64bits(18446744073709549568), math.Float64bits(1e19), math.Float64bits(-1e19), math.Float64bits(9007199254740992), math.Float64bits(-9007199254740992),
+	math.Float64bits(9007199254740991), math.Float64bits(4294967296), math.Float64bits(4294967295), math.Float64bits(2147483648), math.Float64bits(-2147483648), math.Float64bits(-2147483649),
+	math.Float64bits(2147483647), math.Float64bits(1e16), math.Float64bits(1e17), math.Float64bits(1e18), math.Float64bits(-1e18), math.Float64bits(65536), math.Float64bits(-32769), math.Float64bits(255), math.Float64bits(-129)}
+
+func init() { f64Class = append(f64Class, f64IntBounds...) }
+
 var f64NonFinite = []uint64{0x7ff0000000000000, 0xfff0000000000000, 0x7ff8000000000001, 0xfff8000000000000, 0x7ff0000000000001}
 
 // GenDoubleBits draws float64 bit patterns by class.
@@ -336,13 +345,21 @@ func validTail(b []byte) bool {
 // GenBinary draws arbitrary bytes.
 func GenBinary(t *rapid.T) []byte {
 	var n int
-	switch rapid.IntRange(0, 9).Draw(t, "binLenClass") {
-	case 0, 1:
+	switch rapid.IntRange(0, 19).Draw(t, "binLenClass") {
+	case 0, 1, 2, 3:
 		n = 0
-	case 2, 3, 4, 5, 6:
+	case 4, 5, 6, 7, 8, 9, 10, 11, 12, 13:
 		n = rapid.IntRange(1, 8).Draw(t, "binLen")
-	case 7, 8:
+	case 14, 15, 16, 17:
 		n = rapid.IntRange(9, 70).Draw(t, "binLen")
+	case 18:
+		// around the converters' 4096-byte buffers: a drawn 7-byte unit repeated (keeps the draw count small)
+		n = []int{4095, 4096, 4097, 4098, 8191, 8192, 8193, 12289}[rapid.IntRange(0, 7).Draw(t, "binLenPage")]
+		unit := make([]byte, 7)
+		for i := range unit {
+			unit[i] = byte(rapid.IntRange(0, 255).Draw(t, "byte"))
+		}
+		return bytes.Repeat(unit, n/7+1)[:n]
 	default:
 		n = strLenBounds[rapid.IntRange(0, len(strLenBounds)-1).Draw(t, "binLenB")]
 	}
